@@ -399,3 +399,44 @@ M("c05_deallocate_reads_header_after_free", ["C05"], ["C05.R4"], [
             allocator.deallocate(ptr, self.layout());
             let _ = self.chunk_end();
         }""")])
+
+# ---------------------------------------------------------------- C19
+M("c19_get_always_creates", ["C19"], ["C19.R3", "C19.R2"], [
+    ("src/bump_pool.rs", """        let bump = match self.lock().pop() {
+            Some(bump) => bump,
+            None => Bump::new_in(self.allocator.clone()),
+        };""", """        let bump = Bump::new_in(self.allocator.clone());
+        if let Some(old) = self.lock().pop() { self.lock().push(old); }""")])
+M("c19_guard_drop_take_without_push", ["C19"], ["C19.R2"], [
+    ("src/bump_pool.rs", """        let bump = unsafe { ManuallyDrop::take(&mut self.bump) };
+        self.pool.lock().push(bump);""", """        let bump = unsafe { ManuallyDrop::take(&mut self.bump) };
+        if bump.stats().count() < 64 { self.pool.lock().push(bump); }""")])
+M("c19_try_get_peeks_instead_of_pop", ["C19"], ["C19.R2", "C19.R3"], [
+    ("src/bump_pool.rs", """        let bump = match self.lock().pop() {
+            Some(bump) => bump,
+            None => Bump::try_new_in(self.allocator.clone())?,
+        };
+
+        Ok(BumpPoolGuard {""", """        let bump = match self.lock().last() {
+            Some(bump) => unsafe { core::ptr::read(bump) },
+            None => Bump::try_new_in(self.allocator.clone())?,
+        };
+
+        Ok(BumpPoolGuard {""")])
+M("c19_pool_reset_calls_reset_to_start", ["C19"], ["C19.R5"], [
+    ("src/bump_pool.rs", """        for bump in self.bumps() {
+            bump.reset();
+        }""", """        for bump in self.bumps() {
+            bump.reset_to_start();
+        }""")])
+M("c19_bumps_accessor_shared", ["C19"], ["C19.R1"], [
+    ("src/bump_pool.rs", """    fn lock(&self) -> MutexGuard<'_, Vec<Bump<A, S>>> {
+        self.bumps.lock().unwrap_or_else(PoisonError::into_inner)
+    }""", """    fn lock(&self) -> MutexGuard<'_, Vec<Bump<A, S>>> {
+        self.bumps.lock().unwrap_or_else(PoisonError::into_inner)
+    }
+
+    #[allow(dead_code, invalid_reference_casting)]
+    pub(crate) fn peek_len(&self) -> usize {
+        unsafe { (*(&raw const self.bumps).cast_mut()).get_mut().map(|v| v.len()).unwrap_or(0) }
+    }""")])
